@@ -101,7 +101,11 @@ func (s *Sym) Leaves() []string {
 		case "global":
 			m["G:"+x.Name] = true
 		case "unknown":
-			m["?:"+x.Name] = true
+			// "cycle" marks the point where a value feeds back into itself (a local copied to a field and
+			// read back): it names no further origin
+			if x.Name != "cycle" {
+				m["?:"+x.Name] = true
+			}
 		case "call":
 			m["CALL:"+shortCallee(x.Name)] = true
 		}
@@ -215,6 +219,14 @@ func (c *symCtx) sym(v ssa.Value) *Sym {
 				return c.sym(a)
 			}
 		}
+		if args := closureCallArgs(x); len(args) > 0 {
+			// a parameter of a local closure: what its call sites (all within the enclosing function) pass
+			var syms []*Sym
+			for _, a := range args {
+				syms = append(syms, c.sym(a))
+			}
+			return mkPhi(syms)
+		}
 		if _, isStruct := derefUnder(x.Type()).(*types.Struct); isStruct {
 			return &Sym{Op: "field", Name: rootTypeName(x.Type()), V: v, Root: x}
 		}
@@ -236,6 +248,9 @@ func (c *symCtx) sym(v ssa.Value) *Sym {
 		return &Sym{Op: "bin", Name: x.Op.String(), Args: []*Sym{c.sym(x.X), c.sym(x.Y)}, V: v}
 	case *ssa.UnOp:
 		if x.Op == token.MUL {
+			if fw := forwardedStore(x); fw != nil {
+				return c.sym(fw)
+			}
 			return c.load(x.X)
 		}
 		return &Sym{Op: "un", Name: x.Op.String(), Args: []*Sym{c.sym(x.X)}, V: v}
@@ -601,4 +616,113 @@ func linearIn(s *Sym) (lin, bool) {
 		}
 	}
 	return lin{}, false
+}
+
+// closureCallArgs: for a parameter of a function literal that is only ever called (never passed on, stored
+// in a field or returned), the argument each call site passes for it. nil when the literal escapes or is not
+// called.
+func closureCallArgs(p *ssa.Parameter) []ssa.Value {
+	fn := p.Parent()
+	if fn == nil || fn.Parent() == nil {
+		return nil
+	}
+	idx := -1
+	for i, q := range fn.Params {
+		if q == p {
+			idx = i
+		}
+	}
+	if idx < 0 {
+		return nil
+	}
+	root := fn
+	for root.Parent() != nil {
+		root = root.Parent()
+	}
+	var fam []*ssa.Function
+	var walk func(f *ssa.Function)
+	walk = func(f *ssa.Function) {
+		fam = append(fam, f)
+		for _, a := range f.AnonFuncs {
+			walk(a)
+		}
+	}
+	walk(root)
+	var args []ssa.Value
+	for _, f := range fam {
+		for _, b := range f.Blocks {
+			for _, ins := range b.Instrs {
+				switch x := ins.(type) {
+				case ssa.CallInstruction:
+					if staticCallee(x) == fn && !x.Common().IsInvoke() && x.Common().StaticCallee() == nil {
+						if idx < len(x.Common().Args) {
+							args = append(args, x.Common().Args[idx])
+						}
+					}
+					// the literal handed to somebody else
+					for _, a := range x.Common().Args {
+						if closureOf(a) == fn {
+							return nil
+						}
+					}
+				case *ssa.Return:
+					for _, a := range x.Results {
+						if closureOf(a) == fn {
+							return nil
+						}
+					}
+				case *ssa.Store:
+					if closureOf(x.Val) == fn {
+						if _, local := x.Addr.(*ssa.Alloc); !local {
+							return nil
+						}
+					}
+				}
+			}
+		}
+	}
+	return args
+}
+
+// forwardedStore: a load of a local cell that directly follows a store to the same cell in its block (no
+// call, no other store to the cell, no send/select in between) reads what was just stored — the merge of
+// everything ever stored to the cell, which is what a cell otherwise denotes, would lose that.
+func forwardedStore(ld *ssa.UnOp) ssa.Value {
+	cell, ok := ld.X.(*ssa.Alloc)
+	if !ok {
+		return nil
+	}
+	b := ld.Block()
+	if b == nil || cell.Referrers() == nil {
+		return nil
+	}
+	for _, ref := range *cell.Referrers() {
+		switch r := ref.(type) {
+		case *ssa.Store:
+			if r.Addr != ssa.Value(cell) {
+				return nil // the address itself is stored somewhere
+			}
+		case *ssa.UnOp, *ssa.MakeClosure, *ssa.DebugRef:
+		default:
+			return nil
+		}
+	}
+	at := -1
+	for i, ins := range b.Instrs {
+		if ins == ssa.Instruction(ld) {
+			at = i
+		}
+	}
+	for i := at - 1; i >= 0; i-- {
+		switch x := b.Instrs[i].(type) {
+		case *ssa.Store:
+			if x.Addr == ssa.Value(cell) {
+				return x.Val
+			}
+			// a store through another address cannot hit a local cell whose address is only taken by closures
+		case ssa.CallInstruction, *ssa.Send, *ssa.Select, *ssa.RunDefers:
+			return nil
+		}
+	}
+	return nil
 }
